@@ -157,6 +157,22 @@ static int cmp_checked(const void *a, const void *b, void *ctx) {
     return memcmp(pa, pb, cmpctx.size < 4 ? cmpctx.size : 4);   /* the key is the first (up to) 4 bytes */
 }
 
+/* C16: a comparator that itself sorts a second array with qsort_s at every call (the sort must be reentrant:
+   its bookkeeping may not live in static storage) */
+static struct { uint8_t *orig, *work; size_t nmemb, size; int depth; long innerbad, inner; } nest;
+static int cmp_plain(const void *a, const void *b, void *ctx) { size_t sz = *(size_t *)ctx; return memcmp(a, b, sz < 4 ? sz : 4); }
+static int cmp_nesting(const void *a, const void *b, void *ctx) {
+    if (!nest.depth && nest.nmemb) {
+        nest.depth = 1; nest.inner++;
+        memcpy(nest.work, nest.orig, nest.nmemb * nest.size);
+        size_t sz = nest.size;
+        if (_qsort_s_chk(nest.work, nest.nmemb, nest.size, cmp_plain, &sz, BOS_UNKNOWN) != 0) nest.innerbad++;
+        for (size_t i = 0; i + 1 < nest.nmemb; i++) if (memcmp(nest.work + i * sz, nest.work + (i + 1) * sz, sz < 4 ? sz : 4) > 0) { nest.innerbad++; break; }
+        nest.depth = 0;
+    }
+    return cmp_checked(a, b, ctx);
+}
+
 /* returns 0 if the function is unknown */
 static int dispatch(const char *f) {
 #include "dispatch.inc"
